@@ -169,6 +169,7 @@ DiagAtt ==
     LET c == Ev.c IN
     IF s.pc # "run" \/ c \notin Comp THEN "Phases:order"
     ELSE IF "signal" \in Rng(Ev.errs) THEN "ParallelEqualsSerial:datasource-fails-outside-the-main-thread:signal.signal"
+    ELSE IF "race" \in Rng(Ev.errs) THEN "ParallelEqualsSerial:shared-broker-iterated-while-another-thread-stores-a-result:RuntimeError"
     ELSE IF c \in s.att THEN "RunOnce:attempted-twice" \o Strat
     ELSE IF ~(Deps(c) \subseteq s.obs) THEN "RunOrder:dependency-not-attempted-first" \o Strat
     ELSE LET n == AfterAtt(c) IN
